@@ -78,6 +78,10 @@ func runC19(c *CaseCtx) {
 	r := c.Rng
 	kvOnly := c.Case%2 == 0
 	seg := int64(150 + r.Intn(500))
+	manyTxPerSegment := kvOnly && c.Case%8 == 2
+	if manyTxPerSegment {
+		seg = int64(1200 + r.Intn(800)) // a dozen single-record transactions per segment, then transactions that rotate several times
+	}
 	nb := 2
 	if kvOnly {
 		nb = 1 // also run in sparse mode: single bucket
@@ -87,6 +91,10 @@ func runC19(c *CaseCtx) {
 	g := &Gen{R: r, U: u, Cfg: Cfg{Seg: seg}, KV: true, List: !kvOnly, Set: !kvOnly, ZSet: !kvOnly, TTL: true, MaxOps: 5, BigVals: true, M: steer}
 	var steps []c19Step
 	n := 15 + r.Intn(tier(c.Tier, 25, 60))
+	if manyTxPerSegment {
+		g.MaxOps = 1
+		n += 25
+	}
 	for i := 0; i < n; i++ {
 		x := r.Intn(100)
 		var t TxSpec
@@ -117,6 +125,8 @@ func runC19(c *CaseCtx) {
 			steer.Apply(Op{K: "Put", B: u.Buckets[0], Key: k, Val: []byte("after-merge")}, Res{})
 			c.Stat("merge_steps", 1)
 			continue
+		case x < 16 && kvOnly:
+			t = g.BulkKVTx(2 + r.Intn(2)) // several rotations inside one Commit
 		case x < 60:
 			t = g.WriteTx(false)
 		case x < 70:
